@@ -315,8 +315,16 @@ class Cut:
         old = self.text[:ob]
         if expect_sig is not None and norm_ws(expect_sig) not in norm_ws(old):
             raise Undecided("%s: signature changed: %r lacks %r" % (self.desc, norm_ws(old), norm_ws(expect_sig)))
-        self.text = new_header.rstrip() + "\n" + self.text[ob:]
+        self.text = new_header.rstrip() + "\n{ /*@body*/" + self.text[ob + 1:]
         self.log.append("header: signature kept, contract spliced (was %r)" % norm_ws(old))
+
+    def body_start(self, ins):
+        """Insert at the very start of the function body (after set_header)."""
+        k = self.text.find("{ /*@body*/")
+        if k < 0:
+            raise Undecided("%s: body_start before set_header" % self.desc)
+        k += len("{ /*@body*/")
+        self.text = self.text[:k] + "\n" + ins.rstrip() + "\n" + self.text[k:]
 
     def body_only(self):
         """Strip the fn header and outer braces; returns the inner text."""
